@@ -24,8 +24,10 @@ CHECKS["C01"] = dict(
     jobs=lambda tier: ranks_jobs("viewmc", "san", tier, extra_defs=["-DVM_CONST_ROOTS"]),
     rule=("breadth-first search over view states: state = (base offset, per-dimension (first,size,stride), read-only-type bit) reached by an operation history from a root "
           "array_ref/array (shapes incl. sizes 0 and 1, D=1..4, results up to D=5; every array_ref root also through a const reference, so that the read-only view family is explored from the root); alphabet = index, sliced(a,b), sliced(a,b,s), strided, dropped, taked, rotated, unrotated, "
-          "transposed, ~, reversed, diagonal, partitioned, chunked, flatted, v(), call syntax with index/range/all arguments (full product at the root, reduced menu deeper), "
-          "every in-domain argument; every transition is executed on the real view; at every new state: size/sizes/extensions/num_elements/is_empty/strides vs the affine model, "
+          "transposed, ~, reversed, diagonal, partitioned, chunked, flatted, v(), call syntax with 1..4 index/range/all arguments (full product at the root, reduced menu deeper), "
+          "every in-domain argument; for rank >= 3 every axis permutation of the root (composed from rotated/transposed/unrotated) is an additional root expanded one level; "
+          "every transition is executed on the real view THREE times - on a named view (lvalue overload), on std::move(view) (&& overload) and on std::as_const(view) (const& overload, where its body compiles) - and the three results must be the same view; "
+          "states are merged only when the model state AND a fingerprint of the real result (base displacement, stride/offset/nelems of every layout level) agree; intermediate operations of a history run on temporaries, as user code chains them; at every new state: size/sizes/extensions/num_elements/is_empty/strides vs the affine model, "
           "and the address of EVERY valid index tuple via brackets, call syntax, apply(tuple), cursor indexing and cursor += against root + model offset, inside the root's storage; "
           "broadcasted()[i] for i in {0,1,5} designates the source. distinct_nontrivial = distinct states that are non-empty views with >= 2 elements."),
     assumptions=["reference model engine/view_model.hpp (documented index mappings)", "g++ 12 -O0 with ASan+UBSan, assertions enabled",
@@ -94,6 +96,16 @@ def recycle_jobs(prop, tier):
     return jobs
 
 
+def pair_jobs(prop, tier, dims=(1, 2, 3, 4)):
+    """C04: complete (destination, source) extensions grid per dimensionality x every value-semantic form (pairmc)"""
+    jobs = []
+    for d in dims:
+        n = {4: 4}.get(d, 1) if tier == "quick" else {3: 2, 4: 8}.get(d, 1)
+        for sh in range(n):
+            jobs.append(Job("pairmc", cfg="san", defs=["-DPM_D=%d" % d], args=["--tier=" + tier, "--prop=" + prop, "--shard=%d" % sh, "--nshards=%d" % n]))
+    return jobs
+
+
 def reext_jobs(tier):
     """C06: complete (old,new) extents grid per dimensionality (reextmc)"""
     jobs = []
@@ -104,6 +116,9 @@ def reext_jobs(tier):
     return jobs
 
 
+PAIR_RULE = (" pairmc adds the COMPLETE grid of (destination, source) index-extension pairs per dimensionality 1..4 (same per-dimension menu as reextmc: empty, sizes 1..3, shifted index bases) x 14 forms "
+             "(copy/move/converting/other-allocator-type assignment, assignment from a whole view and a const view, copy/move/converting/view construction, swap, member swap, a=+b, self-assignment) x {int, tracked element}: "
+             "destination extensions (sizes and index bases) and every element equal the source's, source unchanged or empty-valid-assignable after a move, no shared storage, no write-through, registry and ledger clean.")
 RECYCLE_RULE = (" The address an allocation returns is an environment answer owned by the harness: besides the default policy (no address is ever handed out twice within a history) the search is repeated with "
                 "the policy 'the most recently released block of the same byte size is handed out again', from the initial state and from a non-initial root (a filled, b empty), so that stale-pointer identity tests are reachable. "
                 "The search key contains the hidden state of both arrays (all stored layout fields, base pointer null / live block / other), so value-equal pools with different hidden state are separate states.")
@@ -123,7 +138,7 @@ CHECKS["C04"] = dict(
     claim=("Every history of construct/copy/move/assign/swap/decay/element-write/reextent operations up to depth 3 (thorough 4-5) over the alphabet is executed on real arrays (D=1..4, tracked and trivial element "
            "types) and compared slot by slot with the value model after every step, plus storage disjointness, self-assignment and move/swap no-copy/no-allocation counters. Independence of copies is decided by "
            "continuing the history (element writes after copies), not by pointer inequality alone."),
-    jobs=lambda tier: hist_jobs("C04", tier) + recycle_jobs("C04", tier), rule=HIST_RULE + RECYCLE_RULE + " Reported for C04: violations of transitions whose last operation is a construct/copy/move/assign/swap/decay/element-write letter.", assumptions=HIST_ASSUME,
+    jobs=lambda tier: hist_jobs("C04", tier) + recycle_jobs("C04", tier) + pair_jobs("C04", tier), rule=HIST_RULE + RECYCLE_RULE + PAIR_RULE + " Reported for C04: violations of transitions whose last operation is a construct/copy/move/assign/swap/decay/element-write letter.", assumptions=HIST_ASSUME,
 )
 CHECKS["C06"] = dict(
     technique="explicit-state BFS over operation histories; index-space intersection reference model for every (old,new) extents pair reachable",
@@ -163,6 +178,17 @@ def alloc_jobs(prop, tier, cfg="san", combos=None):
     return jobs
 
 
+def alloc_recycle_jobs(prop, tier):
+    """allocator-identity runs with the address policy 'released blocks are handed out again' (stale-pointer identity tests between unequal allocators)"""
+    jobs = []
+    for d in ((1, 2) if tier == "quick" else (1, 2, 3)):
+        for (ca, ma, s, f) in [(0, 1, 0, 0), (1, 1, 1, 0), (0, 0, 0, 0)]:
+            depth = 3 if tier == "quick" or d == 3 else 4
+            jobs.append(Job("histmc", cfg="san", defs=["-DHM_D=%d" % d, "-DHM_ELEM=0", "-DHM_ALLOC", "-DHM_CA=%d" % ca, "-DHM_MA=%d" % ma, "-DHM_S=%d" % s, "-DHM_SOCCC=%d" % f, "-DHM_RECYCLE"],
+                            args=["--tier=" + tier, "--prop=" + prop, "--depth=%d" % depth]))
+    return jobs
+
+
 CHECKS["C10"] = dict(
     technique="explicit-state BFS over operation histories re-instantiated for every propagation-trait configuration, equal and unequal allocator instances, pmr resources; container-requirements model",
     title="allocator provenance and propagation", level="model_checking", engine="E2",
@@ -170,7 +196,7 @@ CHECKS["C10"] = dict(
            "returning a fresh instance), with slots living on equal AND unequal instances; after every transition get_allocator() is compared with the container-requirements model, every owned block must have been "
            "produced by the allocator the slot reports (provenance), and every deallocate must go through an equal instance (ledger). The pmr clause is decided by the same kind of history search (harness pmrmc) over std::pmr::polymorphic_allocator arrays living on three counting "
            "memory resources: every block must return to the resource that produced it and get_allocator().resource() must follow the container requirements."),
-    jobs=lambda tier: alloc_jobs("C10", tier) + [Job("pmrmc", cfg="san", args=["--tier=" + tier])],
+    jobs=lambda tier: alloc_jobs("C10", tier) + alloc_recycle_jobs("C10", tier) + [Job("pmrmc", cfg="san", args=["--tier=" + tier])],
     rule=HIST_RULE + " C10 mode: allocator ids #1/#2 (default-constructed #0), 10 trait configurations, extra letters Arr(b,alloc#j), Arr(std::move(b),alloc#j), element-wise move assignment between unequal non-propagating "
          "instances; swap between unequal non-propagating instances is excluded (undefined for every allocator-aware container). For assignments from views/ranges/other element types the property does not fix the resulting "
          "allocator: the model adopts the observed id and only provenance and the ledger are checked.",
@@ -218,10 +244,10 @@ CHECKS["C07"] = dict(
     technique="exhaustive enumeration of value pairs x representation pairs x constness x operators against nested-sequence semantics",
     title="equality and ordering", level="exploration", engine="E4",
     claim=("Complete enumeration: every ordered pair of logical values over a small alphabet (D=0: {0,1,2}; D=1: all vectors of length 0..3 over {0,1,2}; D=2..4: all arrays of a shape menu over {0,1}, including "
-           "pairs of different extents with equal flat contents and empty operands) x 16 representation pairs (owning array, static_array, array_ref, view of rotated storage, padded sub-block, array<short>, view "
-           "of array<short>) x constness of either side x the six operators, compared with nested-sequence semantics. Agreement with the model on all pairs implies irreflexivity, antisymmetry, transitivity and "
+           "pairs of different extents with equal flat contents and empty operands; D=4: all placements of one and of two non-trivial axes) x 20 representation pairs (owning array, static_array, array_ref, view of rotated storage, padded sub-block, blocks padded in one dimension only, array<short>, view "
+           "of array<short>) plus, for D>=3, every non-identity axis permutation of the storage viewed back in logical order (5 pairs per permutation: vs array, array_ref, itself, padded sub-block, the next permutation) x constness of either side x the six operators, compared with nested-sequence semantics. Agreement with the model on all pairs implies irreflexivity, antisymmetry, transitivity and "
            "trichotomy, because the model is a strict weak order. An operator that is ill-formed for an operand pair is a finding (the property names the six operators)."),
-    jobs=lambda tier: [Job("cmpmc", cfg="san", defs=["-DCMP_D=%d" % d], args=["--tier=" + tier]) for d in (0, 1, 2, 3, 4)],
+    jobs=lambda tier: [Job("cmpmc", cfg="san", defs=["-DCMP_D=%d" % d], args=["--tier=" + tier, "--wide=1", "--shard=%d" % sh, "--nshards=%d" % n]) for d in (0, 1, 2, 3, 4) for n in ({3: 2, 4: 10}.get(d, 1),) for sh in range(n)],
     rule=("flat grid of (lhs value, rhs value, representation pair, constness pair, operator); oracle: == iff same extents and same elements, != its negation (required also for empty operands), < lexicographic over the "
           "leading dimension recursively with 'proper prefix is smaller', <= > >= derived; for empty operands only ==/!= consistency (and equality of identical empties). evaluations = operator evaluations; "
           "distinct_nontrivial = ordered pairs of distinct non-empty logical values."),
